@@ -15,7 +15,8 @@ A remote source address is `sourceType::url//subPath` where
 * an `http`/`https` address uses the `https` scheme, has no `checksum` argument, and is a gzipped
   tar archive: either its path ends in `.tar.gz` / `.tgz`, or it says so with exactly one
   `archive=tar.gz` / `archive=tgz` argument, which is normalised to `archive=tgz`;
-* the URL carries no user information;
+* the URL carries no user information (stated next to the policy in the theorems, because it is
+  a fact about what the URL parser returned);
 * the sub-path is empty or a valid slash-separated path without `.`, `..` and empty segments.
 -/
 namespace Slug
@@ -35,28 +36,34 @@ theorem valuesOf_eq_lookupQ (q : List (Str × List Str)) (k : Str) : valuesOf q 
 def IsGit (a : RemoteAddr) : Prop := a.sourceType = "git".toList
 def IsArchive (a : RemoteAddr) : Prop := a.sourceType = "http".toList ∨ a.sourceType = "https".toList
 
-/-- The documented transport policy.  `a.url.query` is the query of the URL as it was given
-(before the `archive` argument is normalised); `a.url.rawQuery` is what is stored. -/
-structure Policy (a : RemoteAddr) : Prop where
+/-- The documented grammar of a remote address: everything the documentation says about what
+may be *written*.  `a.url.query` is the query of the URL as it was given. -/
+structure Grammar (a : RemoteAddr) : Prop where
   /-- only the three documented source types -/
   type_ok : IsGit a ∨ IsArchive a
   /-- git: `https` or `ssh` -/
   git_scheme : IsGit a → a.url.scheme = "https".toList ∨ a.url.scheme = "ssh".toList
-  /-- archives: `https` only (the `http` source type exists but never admits an address) -/
+  /-- archives: `https` only (also when the source type is spelled `http`) -/
   archive_scheme : IsArchive a → a.url.scheme = "https".toList
   /-- git: the only query argument is `ref`, with at most one value -/
   git_query : IsGit a → ∀ kv ∈ a.url.query, kv.1 = "ref".toList ∧ kv.2.length ≤ 1
   /-- archives: no `checksum` argument -/
   no_checksum : IsArchive a → valuesOf a.url.query "checksum".toList = []
-  /-- archives: a gzipped tar archive, by file-name suffix or by a single `archive` argument,
-  stored as `archive=tgz` -/
+  /-- archives: a gzipped tar archive, by file-name suffix or by a single `archive` argument -/
   archive_kind : IsArchive a →
     (valuesOf a.url.query "archive".toList = [] ∧
       (hasSuffix a.url.escapedPath ".tar.gz".toList = true ∨
        hasSuffix a.url.escapedPath ".tgz".toList = true)) ∨
     (∃ v, valuesOf a.url.query "archive".toList = [v] ∧
-      (v = "tar.gz".toList ∨ v = "tgz".toList) ∧ a.url.rawQuery = a.url.tgzQuery)
+      (v = "tar.gz".toList ∨ v = "tgz".toList))
   /-- the sub-path is empty or valid (no `.`, `..`, empty segments) -/
   sub_ok : ValidSub a.subPath
+
+/-- The documented transport policy of a *stored* address: the grammar, and an `archive`
+argument is stored in its normalised spelling `archive=tgz` (`a.url.rawQuery` is what is stored,
+`a.url.tgzQuery` the given query re-encoded with `archive=tgz`). -/
+structure Policy (a : RemoteAddr) : Prop extends Grammar a where
+  archive_stored : IsArchive a → valuesOf a.url.query "archive".toList ≠ [] →
+    a.url.rawQuery = a.url.tgzQuery
 
 end Slug
